@@ -47,6 +47,9 @@ macro_rules! hist_impl {
             fn from_ranges(v: Vec<f64>) -> Result<Self, &'static str> {
                 <$t>::from_ranges(v).map_err(ename)
             }
+            fn from_ranges_lazy(v: Vec<f64>) -> Result<Self, &'static str> {
+                <$t>::from_ranges(v.into_iter().filter(|x| !x.is_nan() || x.is_nan())).map_err(ename)
+            }
             fn with_const_width(a: f64, b: f64) -> Self {
                 <$t>::with_const_width(a, b)
             }
@@ -321,12 +324,21 @@ fn big_family<H: HistT>(rng: &mut Xoshiro256PlusPlus, reps: usize, prop: &str, r
         let mut model: Vec<u128> = vec![0; n];
         let mut history: Vec<String> = Vec::new();
         let limit: u128 = 1 << 62;
+        // every third history ends with a run of single adds into distinct bins after the counts
+        // have passed 2^53: one heavy bin and several light ones (a total accumulated in f64
+        // would no longer see the light ones)
+        let tail_from = if r % 3 == 0 { 8 } else { usize::MAX };
         for step in 0..14 {
             let total: u128 = model.iter().sum();
-            let c = rng.random_range(0..100);
+            let mut c = rng.random_range(0..100);
+            if step >= tail_from {
+                c = 0;
+            } else if tail_from != usize::MAX && step >= 4 && total > 0 && total < (1u128 << 53) {
+                c = 50; // keep multiplying until the counts are beyond 2^53
+            }
             let res = std::panic::catch_unwind(std::panic::AssertUnwindSafe(|| {
                 if c < 45 || total == 0 {
-                    let i = rng.random_range(0..n);
+                    let i = if step >= tail_from { (step - tail_from + 1) % n } else { rng.random_range(0..n) };
                     let x = edges[i] + (edges[i + 1] - edges[i]) * 0.25;
                     let _ = h.add(x);
                     model[i] += 1;
@@ -417,5 +429,6 @@ pub fn direct_histbig(prop: &str, seed: u64, reps: usize, rep: &mut Report) {
     big_family::<h2::Histogram>(&mut rng, reps, prop, rep);
     big_family::<h3::Histogram>(&mut rng, reps, prop, rep);
     big_family::<average::Histogram10>(&mut rng, reps, prop, rep);
+    big_family::<h100::Histogram>(&mut rng, reps / 4, prop, rep);
     rep.sample(json!({"family": "histogram large counts", "ops": ["add", "*= k (k up to 2^32+1)", "merge / += with its own clone", "reset"], "count_limit": "2^62", "reps": reps}));
 }
